@@ -143,9 +143,17 @@ func fmf() myF { note("fmf"); v := pf(cur.FV[cnt%len(cur.FV)]); cnt++; return my
 
 type wr struct {
 	err error
-	buf []int
-	g   myF
+	buf   []int
+	g     myF
+	avail int
 }
+
+// conjuncts that return true and change what a neighbouring comparison reads
+func (w *wr) refill() bool { w.avail = 9; return true }
+
+var gn int
+
+func bumpG() bool { gn = 9; return true }
 
 func (w *wr) flush() { w.err = myErr{}; w.buf = []int{1} }
 func (w *wr) peek() int { return len(w.buf) }
@@ -247,7 +255,7 @@ func main() {
 
 const unpack = "a, b, c, u, v, p, q, s, t, k, l, xs, bs, tm := i.A, i.B, i.C, i.U, i.V, pf(i.P), pf(i.Q), i.S, i.T, i.K, i.L, i.XS, []byte(i.BS), time.Unix(0, i.TM).UTC()\n" +
 	"\t_, _, _, _, _, _, _, _, _, _, _, _, _, _ = a, b, c, u, v, p, q, s, t, k, l, xs, bs, tm\n" +
-	"\tms, mi, mm, ma := myStr(s), myInts(xs), myMap{0: s, 1: t}, myArr{a, b, c}\n\tpa, w := &ma, &wr{}\n\tgxs, gf = nil, hi\n" +
+	"\tms, mi, mm, ma := myStr(s), myInts(xs), myMap{0: s, 1: t}, myArr{a, b, c}\n\tpa, w := &ma, &wr{}\n\tgxs, gf, gn = nil, hi, 0\n" +
 	"\tmf, mg, mc, mc2 := myF(p), myF(q), myC(complex(p, q)), myC(complex(q, p))\n\tfa := [2]myF{mf, mg}\n\tw.g = mg\n" +
 	"\tvv, it := val{a}, &iter{}\n" +
 	"\t_, _, _, _, _, _, _, _, _, _, _, _, _ = ms, mi, mm, ma, pa, w, mf, mg, mc, mc2, fa, vv, it\n"
